@@ -905,3 +905,52 @@ func ifaceHasMethod(t types.Type, name string) bool {
 	}
 	return false
 }
+
+// implementers returns the module's concrete methods that can be the target
+// of an interface method call (type-based, independent of the call graph).
+func (l *Loaded) implementers(recv types.Type, method string) []*ssa.Function {
+	it, ok := recv.Underlying().(*types.Interface)
+	if !ok {
+		return nil
+	}
+	var out []*ssa.Function
+	for path, sp := range l.byPkg {
+		if path != l.ModPath && !strings.HasPrefix(path, l.ModPath+"/") {
+			continue
+		}
+		for _, name := range sp.Pkg.Scope().Names() {
+			tn, ok := sp.Pkg.Scope().Lookup(name).(*types.TypeName)
+			if !ok || tn.IsAlias() {
+				continue
+			}
+			named, ok := tn.Type().(*types.Named)
+			if !ok {
+				continue
+			}
+			if _, isIface := named.Underlying().(*types.Interface); isIface {
+				continue
+			}
+			for _, T := range []types.Type{named, types.NewPointer(named)} {
+				if !types.Implements(T, it) {
+					continue
+				}
+				ms := l.Prog.MethodSets.MethodSet(T)
+				if sel := ms.Lookup(tn.Pkg(), method); sel != nil {
+					if f := l.Prog.MethodValue(sel); f != nil {
+						out = append(out, f)
+					}
+				} else {
+					for i := 0; i < ms.Len(); i++ {
+						if ms.At(i).Obj().Name() == method {
+							if f := l.Prog.MethodValue(ms.At(i)); f != nil {
+								out = append(out, f)
+							}
+						}
+					}
+				}
+				break
+			}
+		}
+	}
+	return out
+}
